@@ -68,6 +68,8 @@ for d in sorted(glob.glob(str(V / "seeded" / "*"))):
         how = f"{v.get('replay_kind')} / `{v.get('replay_signature')}`" if v.get("replay_kind") == "failing-input" else f"{v.get('replay_kind')}"
     else:
         how = "**MISSED**"
+    if v.get("property") and v["property"] != Path(d).name[:3]:
+        how += f" (by the check of {v['property']}: the change does not touch what {Path(d).name[:3]} lists)"
     out.append(f"| {Path(d).name} | {str(m.get('summary', ''))[:260]} | {str(m.get('what_it_needs_to_manifest', ''))[:220]} | {how} |")
 out.append("")
 frag = "\n".join(out)
